@@ -43,7 +43,8 @@ IsConst(d, n) == d[n][1] = "k"
 WellBuilt(d) == /\ \A i, j \in DOMAIN d : (i # j /\ d[i][1] \in Leaves) => d[i][1] # d[j][1]
                 /\ \A i \in DOMAIN d : (d[i][1] = "un" => ~IsConst(d, d[i][2]))
                                        /\ (d[i][1] \in {"bin", "min"} => ~(IsConst(d, d[i][2]) /\ IsConst(d, d[i][3])))
-                                       /\ (d[i][1] = "min" => d[i][2] # d[i][3])
+                                       /\ (d[i][1] = "min" => d[i][2] < d[i][3])   \* commutative ops: the Context orders the
+                                                                                  \* operands by node index (and folds f(a, a))
 
 (* ---------------------------------------------------------------- pass 1 *)
 \* st = [todo, seen, slot (node -> slot or -1 for immediates), pc (parent counts), vars (seq of leaf names), n]
